@@ -239,8 +239,78 @@ pub fn profile_name() -> &'static str {
     }
 }
 
+/// Runs in flight: worker thread -> (start, family index, seed or enumeration index,
+/// enumerated?).  A watchdog thread reports a run that does not return: code that loops
+/// without making a socket call is outside the reach of the call budget.
+static IN_FLIGHT: std::sync::Mutex<Vec<(std::thread::ThreadId, std::time::Instant, usize, u64, bool)>> = std::sync::Mutex::new(Vec::new());
+
+fn flight_begin(fam: usize, seed: u64, enumerated: bool) {
+    if let Ok(mut v) = IN_FLIGHT.lock() {
+        let id = std::thread::current().id();
+        v.retain(|e| e.0 != id);
+        v.push((id, std::time::Instant::now(), fam, seed, enumerated));
+    }
+}
+
+fn flight_end() {
+    if let Ok(mut v) = IN_FLIGHT.lock() {
+        let id = std::thread::current().id();
+        v.retain(|e| e.0 != id);
+    }
+}
+
+/// Start the watchdog of a check: a run that has not returned after `VERIF_RUN_HANG_SECS`
+/// (default 30) wall-clock seconds is reported as a violation `<prop>.no-return` with a
+/// replay file naming the family and seed, and the process exits with the violation code
+/// (the stuck thread cannot be stopped).
+fn start_watchdog(prop: &'static str, tier: String, batch_seed: u64, families: Vec<&'static str>) {
+    let limit = std::env::var("VERIF_RUN_HANG_SECS").ok().and_then(|s| s.parse::<u64>().ok()).unwrap_or(30);
+    std::thread::spawn(move || loop {
+        std::thread::sleep(std::time::Duration::from_millis(500));
+        let stuck = IN_FLIGHT.lock().ok().and_then(|v| v.iter().find(|e| e.1.elapsed().as_secs() >= limit).copied());
+        if let Some((_, start, fam, seed, enumerated)) = stuck {
+            let dir = simcore::verif_dir();
+            let sig = format!("{}.no-return", prop.to_lowercase());
+            let path = format!("{dir}/replays/{prop}-{sig}-{seed}.json");
+            let doc = json!({
+                "engine": "tracersim",
+                "property": prop,
+                "family": families.get(fam).copied().unwrap_or("?"),
+                "family_index": fam,
+                "seed": seed,
+                "enumerated": enumerated,
+                "signature": sig,
+                "kind": "no-return",
+                "detail": format!("the run did not return within {} s of wall-clock time (no socket call in between: the call budget does not apply); replay executes it again under the same watchdog", start.elapsed().as_secs()),
+                "tier": tier,
+                "batch_seed": batch_seed,
+                "profile": profile_name(),
+            });
+            let _ = std::fs::create_dir_all(format!("{dir}/replays"));
+            let _ = std::fs::write(&path, serde_json::to_string_pretty(&doc).unwrap_or_default());
+            // minimal evidence: the batch could not be completed
+            let ev = json!({
+                "property_id": prop,
+                "tier": tier,
+                "seed": batch_seed,
+                "level": "exploration",
+                "coverage": {"evaluations": 0, "distinct_nontrivial": 0, "rule": "the batch was cut short: one run did not return (see the replay)", "samples": [], "replays": [path.clone()]},
+                "assumptions": [],
+                "wall_s": start.elapsed().as_secs_f64(),
+                "violations": 1,
+            });
+            let _ = std::fs::write(format!("{dir}/evidence/{prop}.json"), serde_json::to_string_pretty(&ev).unwrap_or_default());
+            println!("  violation {sig} (family {} seed {seed}): the run did not return within {limit} s", families.get(fam).copied().unwrap_or("?"));
+            println!("VIOLATION property={prop} replay={path}");
+            println!("{prop} VIOLATED: a run did not return");
+            std::process::exit(EXIT_VIOLATION);
+        }
+    });
+}
+
 /// Run the check of one property.  Returns the process exit code.
 pub fn run_check(pc: &PropertyCheck, tier: &str, batch_seed: u64) -> i32 {
+    start_watchdog(pc.id, tier.to_string(), batch_seed, pc.families.iter().map(|f| f.name).collect());
     #[allow(non_snake_case)]
     let VERIF_DIR = simcore::verif_dir();
     let started = std::time::Instant::now();
@@ -288,6 +358,7 @@ pub fn run_check(pc: &PropertyCheck, tier: &str, batch_seed: u64) -> i32 {
             64,
             |i| {
                 let seed = if dims.is_some() { i } else { simcore::run_seed(batch_seed, pc.id, fi as u32, i) };
+                flight_begin(fi, seed, dims.is_some());
                 let rec = match &dims {
                     Some(d) => execute(fam, Tape::from_values(digits(i, d))),
                     None => execute(fam, Tape::from_seed(seed)),
@@ -300,6 +371,7 @@ pub fn run_check(pc: &PropertyCheck, tier: &str, batch_seed: u64) -> i32 {
                 } else {
                     None
                 };
+                flight_end();
                 (seed, s, again)
             },
             |i, (seed, s, again)| {
@@ -529,6 +601,42 @@ pub fn run_replay(pc: &PropertyCheck, path: &str) -> i32 {
         eprintln!("harness error: unknown family {fam_name}");
         return EXIT_HARNESS;
     };
+    if doc["kind"].as_str() == Some("no-return") {
+        // execute the run again under a watchdog: it is a violation if it still does not return
+        let seed = doc["seed"].as_u64().unwrap_or(0);
+        let fam_idx = pc.families.iter().position(|f| f.name == fam_name).unwrap_or(0);
+        let tier = doc["tier"].as_str().unwrap_or("quick").to_string();
+        let tape = if doc["enumerated"].as_bool() == Some(true) {
+            match fam.enum_dims {
+                Some(f) => Tape::from_values(digits(seed, &f(&tier))),
+                None => Tape::from_seed(seed),
+            }
+        } else {
+            Tape::from_seed(seed)
+        };
+        let limit = std::env::var("VERIF_RUN_HANG_SECS").ok().and_then(|s| s.parse::<u64>().ok()).unwrap_or(30);
+        let path2 = path.to_string();
+        let prop = pc.id;
+        let done = std::sync::Arc::new(AtomicBool::new(false));
+        let done2 = done.clone();
+        std::thread::spawn(move || {
+            let start = std::time::Instant::now();
+            while start.elapsed().as_secs() < limit {
+                std::thread::sleep(std::time::Duration::from_millis(200));
+                if done2.load(std::sync::atomic::Ordering::SeqCst) {
+                    return;
+                }
+            }
+            println!("replay {path2}: the run did not return within {limit} s");
+            println!("VIOLATION property={prop} replay={path2}");
+            std::process::exit(EXIT_VIOLATION);
+        });
+        let _ = fam_idx;
+        let rec = execute(fam, tape);
+        done.store(true, std::sync::atomic::Ordering::SeqCst);
+        println!("replay {path}: the run returns on this tree (end={:?}, {} rounds)", rec.end, rec.rounds.len());
+        return EXIT_OK;
+    }
     let tape: Vec<u32> = doc["tape"]
         .as_array()
         .map(|a| a.iter().filter_map(|v| v.as_u64().map(|x| x as u32)).collect())
